@@ -181,8 +181,8 @@ def _wire_format(run):
     for c in dp:
         for cn in g.nodes_of(c):
             got = {_strip(x) for x in PVh.expand_consistent(hh, RH, c.args[0], cn, stop=("data", "line"))} if c.args else set()
-            run.check("R1", got == {"json.loads(data)"} or got == {_strip("json.loads(line.decode(self.ENCODING))")} or
-                      all(x.startswith("json.loads(") for x in got) and bool(got), "the protocol receives the parsed document itself",
+            got = got - {"None"} if len(got) > 1 else got      # the never-taken default of an inlined parsing helper whose other paths raise
+            run.check("R1", bool(got) and all(x.startswith("json.loads(") for x in got), "the protocol receives the parsed document itself",
                       key="_RequestHandler.handle|dispatch-source", where=hh.loc(c),
                       message=f"handle_request is given {sorted(got)[:1]}, not the parsed request")
 
